@@ -1,6 +1,7 @@
 import Cppcms.Common
 import Cppcms.C03.Model
 import Cppcms.C03.Spec
+import Cppcms.C03.HeadersLemmas
 /-!
 Line-protocol driver for C03.
 
@@ -31,23 +32,47 @@ def deframe (p : Proto) (wire : Bytes) : Option (Bytes × Bytes) :=
 
 /-- ops that make the response request its stream (headers are fixed from then on) -/
 def Cppcms.C03.Op.startsOutput : Op → Bool
-  | .write _ _ | .putc _ _ | .lit _ | .out | .flush | .fetchPage _ | .storePage _ => true
+  | .write _ _ | .putc _ _ | .lit _ | .out | .finalize | .flush | .fetchPage _ | .storePage _ => true
   | _ => false
 
 def headerOps (script : List Op) : List Op := script.takeWhile (!·.startsOutput)
 
 def countLine (ls : List Bytes) (l : Bytes) : Nat := (ls.filter (· == l)).length
 
-/-- expected header lines (name, value) set through the API before the stream was requested, as the
-response must carry them; `Status` goes to the status line on HTTP -/
-def expectedHeaders (ops : List Op) : Headers :=
-  ops.foldl (fun h op => match op with
-    | .setHeader n v => h.set n v
-    | .addHeader n v => h.add n v
-    | .cookie n v => h.addRaw (b Gen.cookiePrefix ++ n ++ [61] ++ v ++ b Gen.cookieSuffix)
-    | .contentLength n => h.set sContentLengthName (decDigits n)
-    | .status n => h.set sStatus (decDigits n ++ [32] ++ statusText n)
-    | _ => h) (({} : Headers).set sContentType sTextHtml)
+/-- the header-container operation an action amounts to -/
+def Cppcms.C03.Op.toHOp : Op → Option HOp
+  | .setHeader n v => some (.set n v)
+  | .addHeader n v => some (.add n v)
+  | .cookie n v => some (.addRaw (b Gen.cookiePrefix ++ n ++ [61] ++ v ++ b Gen.cookieSuffix))
+  | .contentLength n => some (.set sContentLengthName (decDigits n))
+  | .status n => some (.set sStatus (decDigits n ++ [32] ++ statusText n))
+  | _ => none
+
+/-- what the application did to its headers before the stream was requested (`response::response` sets Content-Type) -/
+def appHeaderOps (script : List Op) : List HOp :=
+  HOp.set sContentType sTextHtml :: (headerOps script).filterMap Op.toHOp
+
+/-- the property's expectation for the header block, stated with the *specification* of the container
+(`lastValue`: the last assignment under any spelling wins, an empty one erases; added lines all, in order) and the
+RFC field parser of `Spec`, not with the container's implementation: for every name the application touched, the
+field values the client sees under that name are exactly the surviving assigned value (if any) followed by the
+added ones in order.  `Status` is returned separately (status line on HTTP). -/
+def headerExpectation (hops : List HOp) (ls : List Bytes) : Bool × Option Bytes :=
+  let strip (v : Bytes) : Bytes := v.dropWhile Spec.isWs
+  let addedFields := (hops.filterMap HOp.adds).filterMap Spec.parseField
+  let setNames := (hops.filterMap HOp.sets).map (·.1)
+  let names := setNames.map Spec.lower ++ addedFields.map (·.1)
+  let lstatus := Spec.lower sStatus
+  let ok := names.all fun ln =>
+    if ln == lstatus then true else
+    -- any spelling of the name serves for `lastValue`
+    let v := match setNames.find? (fun n => Spec.lower n == ln) with
+      | some n => lastValue n [] hops
+      | none => []
+    let expected := (if v.isEmpty then [] else [strip v]) ++ (addedFields.filter (·.1 == ln)).map (·.2)
+    Spec.fieldValues ln ls == expected
+  let st := lastValue sStatus [] hops
+  (ok, if st.isEmpty then none else some st)
 
 def judge (cs : Case) (wire : Bytes) (cache : Option Bytes) (gun : Option Bytes) (cacheHit : Bool) : String :=
   match deframe cs.proto wire with
@@ -56,21 +81,21 @@ def judge (cs : Case) (wire : Bytes) (cache : Option Bytes) (gun : Option Bytes)
     let payload := (cs.script.map Op.payload).flatten
     let ls := Spec.lines head
     -- expected application bytes and header lines
-    let exp : Option (Bytes × List Bytes × Option Bytes) :=
+    let exp : Option (Bytes × Bool × Option Bytes) :=
       if cs.mode.isRaw then
         match Spec.splitHead payload with
         | none => none
         | some (rawHead, rest) =>
+          -- raw modes: the application's own header block, as `cgi_headers_parser` reads it, every line exactly once
           let h := ((Spec.lines rawHead).filter (!·.isEmpty)).foldl rawAddHeader ({} : Headers)
-          some (rest, (h.map.filter (fun kv => !ieq kv.1 sStatus)).map (fun kv => kv.1 ++ [58, 32] ++ kv.2) ++ h.added,
-                (mapFind sStatus h.map).map (·.2))
+          let hlines := (h.map.filter (fun kv => !ieq kv.1 sStatus)).map (fun kv => kv.1 ++ [58, 32] ++ kv.2) ++ h.added
+          some (rest, hlines.all (fun l => countLine ls l == countLine hlines l), (mapFind sStatus h.map).map (·.2))
       else
-        let h := expectedHeaders (headerOps cs.script)
-        some (payload, (h.map.filter (fun kv => !ieq kv.1 sStatus)).map (fun kv => kv.1 ++ [58, 32] ++ kv.2) ++ h.added,
-              (mapFind sStatus h.map).map (·.2))
+        let e := headerExpectation (appHeaderOps cs.script) ls
+        some (payload, e.1, e.2)
     match exp with
     | none => "0:script-has-no-raw-header-block"
-    | some (app, hlines, status) =>
+    | some (app, headersOk, status) =>
       let encoded := (Spec.fieldValues Spec.sContentEncoding ls).any (Spec.lower · == Spec.sChunked.take 0 ++ [103,122,105,112])
       let bodyOk : Bool :=
         if cacheHit then true      -- a page served from the cache is judged against the stored page by the check script
@@ -81,12 +106,14 @@ def judge (cs : Case) (wire : Bytes) (cache : Option Bytes) (gun : Option Bytes)
       if !bodyOk then "0:body-differs-from-application-bytes"
       else
         let isHttp := match cs.proto with | .http _ _ => true | _ => false
-        -- every header/cookie exactly once; on HTTP the status is in the status line, elsewhere a Status header
-        let missing := hlines.filter fun l => countLine ls l != countLine hlines l
-        let statusOk : Bool := match status with
-          | none => true
-          | some v => if isHttp then (ls.headD []).drop 9 == v else countLine ls (sStatus ++ [58, 32] ++ v) == 1
-        if !missing.isEmpty then "0:header-missing-or-repeated"
+        -- on HTTP the status is in the status line (default 200 Ok) and not a header; elsewhere a Status header, once, or none
+        let statusFields := Spec.fieldValues (Spec.lower sStatus) ls
+        let statusOk : Bool :=
+          if isHttp then (ls.headD []).drop 9 == status.getD (b Gen.defaultStatus) && statusFields.isEmpty
+          else match status with
+            | none => statusFields.isEmpty
+            | some v => statusFields == [v.dropWhile Spec.isWs]
+        if !headersOk then "0:header-missing-repeated-or-stale"
         else if !statusOk then "0:status"
         else if (ls.filter (·.isEmpty)).length != 1 then "0:header-block-not-terminated-once"
         else match cache with
